@@ -19,9 +19,10 @@ from props import c03, c04
 RULE = ('valid generated programs x corruption catalogue: unbound head variable, unbound comparison variable, '
         'unbound variable shared by head and negation only, unbound `in` container, unbound assignment source, '
         'aggregation without distinct, inconsistent distinct, recursion without base case, functor applied to a '
-        'non-dependency, annotation of a missing predicate (7 annotation kinds, after a valid annotation of the '
+        'non-dependency (also one that the passed value reads), annotation of a missing predicate (7 annotation kinds, after a valid annotation of the '
         'same kind), unbalanced bracket / quote (insert or delete); non-trivial = the uncorrupted program '
-        'compiles; distinct by corrupted text')
+        'compiles; distinct by corrupted text; random programs with annotations on existing / missing predicates and '
+        'random distinct denotations against the decision-logic model')
 ASSUMPTIONS = ()
 
 DIAG = ('parsing', 'rule_compile', 'functor', 'type')
